@@ -18,6 +18,7 @@ Anything outside the small expression subset raises TranslatorError (handled lik
 from __future__ import annotations
 
 import ast
+import json
 import importlib
 import sys
 from fractions import Fraction
@@ -67,12 +68,15 @@ def _body(fn):
 class Cond:
     """expression translator for the sweep / join / budget conditions"""
 
-    def __init__(self, var: str | None, get_max_time_ok: bool):
+    def __init__(self, var: str | None, get_max_time_ok: bool, aliases: dict | None = None):
         self.var = var
         self.gmt = get_max_time_ok
+        self.aliases = aliases or {}      # local names bound once to an expression of the subset (e.g. now = time.time())
 
     def num(self, e) -> str:
         u = ast.unparse(e)
+        if isinstance(e, ast.Name) and e.id in self.aliases:
+            return self.num(self.aliases[e.id])
         if u == "time.time()":
             return "(n : Int)"
         if isinstance(e, ast.Attribute) and isinstance(e.value, ast.Name) and e.value.id == self.var and e.attr in FIELDS:
@@ -125,7 +129,7 @@ class Cond:
         raise TranslatorError(f"unsupported condition: {u[:100]}")
 
 
-def _sweep_loop(loop, table_attr, remover, gmt_ok):
+def _sweep_loop(loop, table_attr, remover, gmt_ok, aliases=None):
     if not isinstance(loop, ast.For):
         raise TranslatorError("do_remove: expected a for loop")
     if ast.unparse(loop.iter) != f"list(self.{table_attr}.items())":
@@ -136,7 +140,7 @@ def _sweep_loop(loop, table_attr, remover, gmt_ok):
     idv, var = (x.id for x in loop.target.elts)
     if len(loop.body) != 1 or not isinstance(loop.body[0], ast.If) or loop.orelse:
         raise TranslatorError(f"do_remove: loop over {table_attr} is not a single if/elif chain")
-    tr = Cond(var, gmt_ok)
+    tr = Cond(var, gmt_ok, aliases)
     branches = []
     node = loop.body[0]
     while True:
@@ -243,17 +247,37 @@ def translate() -> tuple[str, dict]:
     dr = [st for st in _body(_fn(tc, "do_remove")) if isinstance(st, ast.For)]
     if len(dr) < 3:
         raise TranslatorError("do_remove: fewer than three sweep loops")
+    # single-assignment local aliases in front of the loops (e.g. `now = time.time()`, `limit = now - settings.X`)
+    aliases, assigned = {}, {}
+    for st in _body(_fn(tc, "do_remove")):
+        if isinstance(st, ast.For):
+            break
+        if isinstance(st, ast.Assign) and len(st.targets) == 1 and isinstance(st.targets[0], ast.Name):
+            aliases[st.targets[0].id] = st.value
+    for st in ast.walk(_fn(tc, "do_remove")):
+        if isinstance(st, (ast.Assign, ast.AugAssign)):
+            for t in (st.targets if isinstance(st, ast.Assign) else [st.target]):
+                if isinstance(t, ast.Name):
+                    assigned[t.id] = assigned.get(t.id, 0) + 1
+    aliases = {k: v for k, v in aliases.items() if assigned.get(k) == 1}
     sweeps = {
-        "sweepCircuit": _sweep_loop(dr[0], "circuits", "remove_circuit", gmt_ok),
-        "sweepRelay": _sweep_loop(dr[1], "relay_from_to", "remove_relay", gmt_ok),
-        "sweepExit": _sweep_loop(dr[2], "exit_sockets", "remove_exit_socket", gmt_ok),
+        "sweepCircuit": _sweep_loop(dr[0], "circuits", "remove_circuit", gmt_ok, aliases),
+        "sweepRelay": _sweep_loop(dr[1], "relay_from_to", "remove_relay", gmt_ok, aliases),
+        "sweepExit": _sweep_loop(dr[2], "exit_sockets", "remove_exit_socket", gmt_ok, aliases),
     }
     # ---- should_join_circuit
-    sj = _body(_fn(tc, "should_join_circuit"))
-    if not (len(sj) == 2 and isinstance(sj[0], ast.If) and ast.unparse(sj[0].body[-1]) == "return False"
-            and not sj[0].orelse and ast.unparse(sj[1]) == "return True"):
+    sj = [st for st in _body(_fn(tc, "should_join_circuit"))]
+    core = [st for st in sj if not (isinstance(st, ast.Expr) and "logger" in ast.unparse(st))]
+    if len(core) == 2 and isinstance(core[0], ast.If) and ast.unparse(core[0].body[-1]) == "return False" \
+            and not core[0].orelse and ast.unparse(core[1]) == "return True":
+        join_refused = Cond(None, False).boolean(core[0].test)
+    elif len(core) == 2 and isinstance(core[0], ast.If) and ast.unparse(core[0].body[-1]) == "return True" \
+            and not core[0].orelse and ast.unparse(core[1]) == "return False":
+        join_refused = "(!" + Cond(None, False).boolean(core[0].test) + ")"
+    elif len(core) == 1 and isinstance(core[0], ast.Return) and core[0].value is not None:
+        join_refused = "(!" + Cond(None, False).boolean(core[0].value) + ")"
+    else:
         raise TranslatorError("should_join_circuit: unexpected shape")
-    join_refused = Cond(None, False).boolean(sj[0].test)
     # ---- relay_cell budget and RelayRoute initial count
     cry = ast.parse((REPO / CRYPTO).read_text())
     rcell = _fn(_cls(cry, "PythonCryptoEndpoint"), "relay_cell")
@@ -295,7 +319,11 @@ def translate() -> tuple[str, dict]:
         raise TranslatorError("remove_exit_socket: `X = self.exit_sockets.pop(circuit_id, None)` not found")
     close_cond = None
     for st in ast.walk(res):
-        if isinstance(st, ast.If) and ast.unparse(st.test) == popped:
+        if isinstance(st, ast.If) and ast.unparse(st.test) in (f"{popped} and {popped}.enabled",
+                                                                f"{popped} is not None and {popped}.enabled") \
+                and any(ast.unparse(x) == f"await {popped}.close()" for x in st.body):
+            close_cond = "enabledAtPop"
+        if isinstance(st, ast.If) and ast.unparse(st.test) in (popped, f"{popped} is not None"):
             for inner in st.body:
                 if isinstance(inner, ast.Expr) and ast.unparse(inner) == f"await {popped}.close()":
                     close_cond = "true"
@@ -308,6 +336,110 @@ def translate() -> tuple[str, dict]:
                                               f"not under its own `enabled` flag")
     if close_cond is None:
         raise TranslatorError("remove_exit_socket: no `await <popped>.close()` for the popped exit socket")
+    # ---- on_destroy: the branch table (guard kind, removals with "destroy passed on" flag)
+    od = _body(_fn(tc, "on_destroy"))
+    chain = [st for st in od if isinstance(st, ast.If)]
+    if len(chain) != 1:
+        raise TranslatorError("on_destroy: expected exactly one if/elif chain")
+    src_od = ast.unparse(_fn(tc, "on_destroy"))
+    for need in ("next_relay = self.relay_from_to.get(circuit_id)",
+                 "prev_relay = self.relay_from_to.get(next_relay.circuit_id) if next_relay else None",
+                 "circuit_id = payload.circuit_id"):
+        if need not in src_od:
+            raise TranslatorError(f"on_destroy: `{need}` not found")
+    guards = {"prev_relay and peer == prev_relay.hop.peer": "relayPair",
+              "circuit_id in self.exit_sockets and peer == self.exit_sockets[circuit_id].hop.peer": "exit",
+              "circuit_id in self.circuits and peer == self.circuits[circuit_id].hop.peer": "circuit"}
+    removers = {"self.remove_circuit": 0, "self.remove_relay": 1, "self.remove_exit_socket": 2}
+    destroy_branches = []
+    node = chain[0]
+    while True:
+        g = guards.get(ast.unparse(node.test))
+        if g is None:
+            raise TranslatorError(f"on_destroy: unsupported guard `{ast.unparse(node.test)[:90]}`")
+        acts = []
+        for st in node.body:
+            if not (isinstance(st, ast.Expr) and isinstance(st.value, ast.Call)
+                    and ast.unparse(st.value.func) in removers):
+                raise TranslatorError(f"on_destroy/{g}: statement is not a removal: {ast.unparse(st)[:80]}")
+            call = st.value
+            who = ast.unparse(call.args[0]) if call.args else ""
+            if who == "circuit_id":
+                paired = False
+            elif who in ("next_relay.circuit_id", "cast('RelayRoute', next_relay).circuit_id"):
+                paired = True
+            else:
+                raise TranslatorError(f"on_destroy/{g}: removal of `{who}`")
+            fwd = False
+            for kw in call.keywords:
+                if kw.arg == "destroy" and ast.unparse(kw.value) == "payload.reason":
+                    fwd = True
+                else:
+                    raise TranslatorError(f"on_destroy/{g}: unsupported keyword {kw.arg}={ast.unparse(kw.value)}")
+            acts.append((removers[ast.unparse(call.func)], paired, fwd))
+        destroy_branches.append((g, acts))
+        if not node.orelse:
+            break
+        if len(node.orelse) == 1 and isinstance(node.orelse[0], ast.If):
+            node = node.orelse[0]
+        else:
+            if any(isinstance(x, ast.Expr) and isinstance(x.value, ast.Call)
+                   and ast.unparse(x.value.func) in removers for x in node.orelse):
+                raise TranslatorError("on_destroy: the final else removes something")
+            break
+
+    # ---- every place that refreshes / writes the liveness clocks, in the five anchored files
+    beat_sites, clock_writes = [], []
+    for rel in (COMM, CRYPTO, "ipv8/messaging/anonymization/exit_socket.py", TUN, CACHES):
+        tree = ast.parse((REPO / rel).read_text())
+        base = rel.rsplit("/", 1)[1]
+        for fn in [n for n in ast.walk(tree) if isinstance(n, (ast.FunctionDef, ast.AsyncFunctionDef))]:
+            binds = {}
+            for st in ast.walk(fn):
+                if isinstance(st, ast.Assign) and len(st.targets) == 1 and isinstance(st.targets[0], ast.Name):
+                    binds[st.targets[0].id] = ast.unparse(st.value)
+                if isinstance(st, ast.For) and isinstance(st.target, ast.Name):
+                    binds[st.target.id] = "for " + ast.unparse(st.iter)
+            for st in ast.walk(fn):
+                if isinstance(st, ast.Call) and isinstance(st.func, ast.Attribute) and st.func.attr == "beat_heart":
+                    recv = ast.unparse(st.func.value)
+                    beat_sites.append((base, fn.name, recv, binds.get(recv, recv)))
+                if isinstance(st, (ast.Assign, ast.AugAssign)):
+                    for t in (st.targets if isinstance(st, ast.Assign) else [st.target]):
+                        for tt in (t.elts if isinstance(t, ast.Tuple) else [t]):
+                            if isinstance(tt, ast.Attribute) and tt.attr in ("last_activity", "creation_time"):
+                                clock_writes.append((base, fn.name, ast.unparse(tt)))
+    beat_sites = sorted(set(beat_sites))
+    clock_writes = sorted(set(clock_writes))
+
+    # ---- do_ping: which circuits are pinged
+    dp = [st for st in _body(_fn(tc, "do_ping")) if isinstance(st, ast.For)]
+    if len(dp) != 1 or ast.unparse(dp[0].iter) != "list(self.circuits.values())" or len(dp[0].body) != 1 \
+            or not isinstance(dp[0].body[0], ast.If) or dp[0].body[0].orelse:
+        raise TranslatorError("do_ping: expected `for circuit in list(self.circuits.values()): if …:`")
+    pv = dp[0].target.id
+    test = dp[0].body[0].test
+    conj = test.values if isinstance(test, ast.BoolOp) and isinstance(test.op, ast.And) else [test]
+    ping_terms = []
+    for t in conj:
+        u = ast.unparse(t)
+        if u == f"{pv}.circuit_id not in exclude":
+            continue
+        if u == f"{pv}.hops":
+            ping_terms.append("decide (0 < hops)")
+        elif isinstance(t, ast.Compare) and len(t.ops) == 1 and isinstance(t.ops[0], ast.In) \
+                and ast.unparse(t.left) == f"{pv}.state" and isinstance(t.comparators[0], (ast.List, ast.Tuple)):
+            states = sorted(ast.unparse(x) for x in t.comparators[0].elts)
+            if states == ["CIRCUIT_STATE_EXTENDING", "CIRCUIT_STATE_READY"]:
+                ping_terms.append("!closing")
+            elif states == ["CIRCUIT_STATE_CLOSING", "CIRCUIT_STATE_EXTENDING", "CIRCUIT_STATE_READY"]:
+                pass
+            else:
+                raise TranslatorError(f"do_ping: unsupported state set {states}")
+        else:
+            raise TranslatorError(f"do_ping: unsupported condition `{u[:80]}`")
+    ping_wanted = " && ".join(ping_terms) if ping_terms else "true"
+
     # ---- remove_* guards
     guards = {_guard(_fn(tc, n)) for n in ("remove_circuit", "remove_relay", "remove_exit_socket")}
     if len(guards) != 1:
@@ -345,6 +477,18 @@ def translate() -> tuple[str, dict]:
             "/-- RelayRoute.relay_early_count at construction -/", f"def earlyInit : Nat := {early_init}", "",
             "/-- remove_exit_socket closes the transports of the exit socket it pops (argument: its `enabled` flag then) -/",
             "def closeOnPop (enabledAtPop : Bool) : Bool :=", f"  {close_cond}", "",
+            "/-- on_destroy: the if/elif chain as (guard, [(table 0=circuits 1=relays 2=exits, paired id?, destroy passed on?)]) -/",
+            "def destroyBranches : List (String × List (Nat × Bool × Bool)) :=",
+            "  [" + ", ".join("(\"%s\", [%s])" % (g, ", ".join("(%d, %s, %s)" % (t, str(pd).lower(), str(fw).lower())
+                                                                for t, pd, fw in acts)) for g, acts in destroy_branches) + "]", "",
+            "/-- every `X.beat_heart()` call of the anchored files: (file, function, receiver, what the receiver is bound to) -/",
+            "def beatSites : List (String × String × String × String) :=",
+            "  [" + ",\n   ".join("(%s, %s, %s, %s)" % tuple(json.dumps(x) for x in b) for b in beat_sites) + "]", "",
+            "/-- every assignment to last_activity / creation_time in the anchored files: (file, function, target) -/",
+            "def clockWrites : List (String × String × String) :=",
+            "  [" + ",\n   ".join("(%s, %s, %s)" % tuple(json.dumps(x) for x in b) for b in clock_writes) + "]", "",
+            "/-- do_ping pings this circuit -/",
+            "def pingWanted (closing : Bool) (hops : Nat) : Bool :=", f"  {ping_wanted}", "",
             "/-- RetryRequestCache.on_timeout gives up (removes the circuit) instead of retrying -/",
             "def giveUp (cands tries : Nat) : Bool :=", f"  {give_up}", "",
             "end Ipv8.C09.Gen", ""]
